@@ -651,8 +651,10 @@ class SmtpModel:
             if sl:
                 self.slack += 1
             for a in alts:
-                # the length limit ("around 900"): whether it applies before or after the localiphost rule is not stated
-                lens = (len(a), len(addr))
+                # the length limit ("around 900") applies to the address that is checked and stored, i.e. after the localiphost rule
+                # (property C08: "local IP-literal domains are replaced before that check"); literals that are open (0.0.0.0, leading
+                # zeros) are judged under both readings through the two alternatives
+                lens = (len(a),)
                 if max(lens) > MAXADDR_OK:
                     res[5].add(s)
                 if min(lens) >= MAXADDR_BAD:
@@ -1082,12 +1084,18 @@ def model_cfg(sc, env, databytes, local_ips):
 def control_files(sc, dbctl):
     ctl = sc.get("ctl", {})
 
+    nonl = set(ctl.get("nonl") or [])
+
+    def fin(name, b):
+        # a control file whose last line lacks the newline is legal: the line counts like any other
+        return b[:-1] if (b and name in nonl and b.endswith(b"\n")) else b
+
     def text(name):
         v = ctl.get(name)
-        return None if v is None else b"".join(B(x) + b"\n" for x in v)
+        return None if v is None else fin(name, b"".join(B(x) + b"\n" for x in v))
     lip = B(ctl.get("localiphost"))
-    return {"me": B(ctl.get("me", "me.example")) + b"\n", "rcpthosts": text("rcpthosts"), "morercpthosts": text("morercpthosts"),
-            "badmailfrom": text("badmailfrom"), "localiphost": None if lip is None else lip + b"\n", "databytes": dbctl}
+    return {"me": fin("me", B(ctl.get("me", "me.example")) + b"\n"), "rcpthosts": text("rcpthosts"), "morercpthosts": text("morercpthosts"),
+            "badmailfrom": text("badmailfrom"), "localiphost": None if lip is None else fin("localiphost", lip + b"\n"), "databytes": dbctl}
 
 
 def scenario_env(sc, dbenv):
